@@ -44,7 +44,7 @@ type frame struct {
 	caller           *frame
 	fn               *ssa.Function
 	block, prevBlock *ssa.BasicBlock
-	env              map[ssa.Value]value // dynamic values of SSA variables
+	env              envT                // dynamic values of SSA variables
 	locals           []value
 	defers           *deferred
 	result           value
@@ -52,6 +52,7 @@ type frame struct {
 	panic            interface{}
 	phitemps         []value // temporaries for parallel phi assignment
 	depth            int
+	lit              *litInfo // folded constant literals of fn (nil: none)
 }
 
 // ---- engine control flow (never visible to the target's recover) ----
@@ -101,7 +102,7 @@ func (fr *frame) get(key ssa.Value) value {
 	case *ssa.Global:
 		return fr.i.global(key)
 	}
-	if r, ok := fr.env[key]; ok {
+	if r, ok := fr.env.get(key); ok {
 		return r
 	}
 	panic(fmt.Sprintf("get: no value for %T: %v", key, key.Name()))
@@ -206,6 +207,9 @@ func lookupMethod(i *interpreter, typ types.Type, meth *types.Func) *ssa.Functio
 // read the next instruction from.
 func visitInstr(fr *frame, instr ssa.Instruction) continuation {
 	i := fr.i
+	if fr.lit != nil && fr.lit.skip[instr] {
+		return kNext
+	}
 	i.steps++
 	if i.steps > i.cfg.MaxSteps {
 		panic(abortPath{abBudget, fmt.Sprintf("step budget %d exceeded in %s", i.cfg.MaxSteps, fr.fn)})
@@ -215,35 +219,35 @@ func visitInstr(fr *frame, instr ssa.Instruction) continuation {
 		// no-op
 
 	case *ssa.UnOp:
-		fr.env[instr] = i.unop(instr, fr.get(instr.X))
+		fr.env.set(instr, i.unop(instr, fr.get(instr.X)))
 
 	case *ssa.BinOp:
-		fr.env[instr] = i.binop(instr.Op, instr.X.Type(), instr.Y.Type(), fr.get(instr.X), fr.get(instr.Y))
+		fr.env.set(instr, i.binop(instr.Op, instr.X.Type(), instr.Y.Type(), fr.get(instr.X), fr.get(instr.Y)))
 
 	case *ssa.Call:
 		fn, args := prepareCall(fr, &instr.Call)
-		fr.env[instr] = call(fr.i, fr, instr.Pos(), fn, args)
+		fr.env.set(instr, call(fr.i, fr, instr.Pos(), fn, args))
 
 	case *ssa.ChangeInterface:
-		fr.env[instr] = fr.get(instr.X)
+		fr.env.set(instr, fr.get(instr.X))
 
 	case *ssa.ChangeType:
-		fr.env[instr] = fr.get(instr.X) // (can't fail)
+		fr.env.set(instr, fr.get(instr.X)) // (cannot fail)
 
 	case *ssa.Convert:
-		fr.env[instr] = i.conv(instr.Type(), instr.X.Type(), fr.get(instr.X))
+		fr.env.set(instr, i.conv(instr.Type(), instr.X.Type(), fr.get(instr.X)))
 
 	case *ssa.SliceToArrayPointer:
-		fr.env[instr] = i.sliceToArrayPointer(instr.Type(), instr.X.Type(), fr.get(instr.X))
+		fr.env.set(instr, i.sliceToArrayPointer(instr.Type(), instr.X.Type(), fr.get(instr.X)))
 
 	case *ssa.MakeInterface:
-		fr.env[instr] = iface{t: instr.X.Type(), v: fr.get(instr.X)}
+		fr.env.set(instr, iface{t: instr.X.Type(), v: fr.get(instr.X)})
 
 	case *ssa.Extract:
-		fr.env[instr] = fr.get(instr.Tuple).(tuple)[instr.Index]
+		fr.env.set(instr, fr.get(instr.Tuple).(tuple)[instr.Index])
 
 	case *ssa.Slice:
-		fr.env[instr] = i.slice(instr, fr.get(instr.X), fr.get(instr.Low), fr.get(instr.High), fr.get(instr.Max))
+		fr.env.set(instr, i.slice(instr, fr.get(instr.X), fr.get(instr.Low), fr.get(instr.High), fr.get(instr.Max)))
 
 	case *ssa.Return:
 		switch len(instr.Results) {
@@ -307,17 +311,25 @@ func visitInstr(fr *frame, instr ssa.Instruction) continuation {
 		i.spawn(fr, instr, fn, args)
 
 	case *ssa.MakeChan:
-		fr.env[instr] = &channel{cap: int(i.concreteInt(fr.get(instr.Size), "chan size"))}
+		fr.env.set(instr, &channel{cap: int(i.concreteInt(fr.get(instr.Size), "chan size"))})
 
 	case *ssa.Alloc:
 		var addr *value
 		if instr.Heap {
 			// new
 			addr = new(value)
-			fr.env[instr] = addr
+			fr.env.set(instr, addr)
 		} else {
 			// local
-			addr = fr.env[instr].(*value)
+			addr = fr.envPtr(instr)
+		}
+		if fr.lit != nil {
+			if t, ok := fr.lit.tmpl[instr]; ok {
+				a := make(array, len(t))
+				copy(a, t)
+				*addr = a
+				break
+			}
 		}
 		*addr = zero(mustDeref(instr.Type()))
 
@@ -329,39 +341,39 @@ func visitInstr(fr *frame, instr ssa.Instruction) continuation {
 		for i := range slice {
 			slice[i] = zero(tElt)
 		}
-		fr.env[instr] = slice[:l]
+		fr.env.set(instr, slice[:l])
 
 	case *ssa.MakeMap:
-		fr.env[instr] = makeMap(instr.Type().Underlying().(*types.Map).Key())
+		fr.env.set(instr, makeMap(instr.Type().Underlying().(*types.Map).Key()))
 
 	case *ssa.Range:
-		fr.env[instr] = i.rangeIter(fr.get(instr.X), instr.X.Type())
+		fr.env.set(instr, i.rangeIter(fr.get(instr.X), instr.X.Type()))
 
 	case *ssa.Next:
-		fr.env[instr] = fr.get(instr.Iter).(iter).next()
+		fr.env.set(instr, fr.get(instr.Iter).(iter).next())
 
 	case *ssa.FieldAddr:
 		p := fr.get(instr.X).(*value)
 		if p == nil {
 			i.runtimePanic("invalid memory address or nil pointer dereference")
 		}
-		fr.env[instr] = &(*p).(structure)[instr.Field]
+		fr.env.set(instr, &(*p).(structure)[instr.Field])
 
 	case *ssa.Field:
-		fr.env[instr] = fr.get(instr.X).(structure)[instr.Field]
+		fr.env.set(instr, fr.get(instr.X).(structure)[instr.Field])
 
 	case *ssa.IndexAddr:
 		x := fr.get(instr.X)
 		idx := fr.get(instr.Index)
 		switch x := x.(type) {
 		case []value:
-			fr.env[instr] = &x[i.index(idx, len(x))]
+			fr.env.set(instr, &x[i.index(idx, len(x))])
 		case *value: // *array
 			if x == nil {
 				i.runtimePanic("invalid memory address or nil pointer dereference")
 			}
 			a := (*x).(array)
-			fr.env[instr] = &a[i.index(idx, len(a))]
+			fr.env.set(instr, &a[i.index(idx, len(a))])
 		default:
 			panic(fmt.Sprintf("unexpected x type in IndexAddr: %T", x))
 		}
@@ -372,21 +384,21 @@ func visitInstr(fr *frame, instr ssa.Instruction) continuation {
 
 		switch x := x.(type) {
 		case array:
-			fr.env[instr] = i.indexRead([]value(x), idx)
+			fr.env.set(instr, i.indexRead([]value(x), idx))
 		case string:
 			if t, ok := idx.(*Term); ok {
-				fr.env[instr] = i.indexRead(strVals(x), t)
+				fr.env.set(instr, i.indexRead(strVals(x), t))
 			} else {
-				fr.env[instr] = x[i.index(idx, len(x))]
+				fr.env.set(instr, x[i.index(idx, len(x))])
 			}
 		case symstr:
-			fr.env[instr] = i.indexRead([]value(x), idx)
+			fr.env.set(instr, i.indexRead([]value(x), idx))
 		default:
 			panic(fmt.Sprintf("unexpected x type in Index: %T", x))
 		}
 
 	case *ssa.Lookup:
-		fr.env[instr] = i.lookup(instr, fr.get(instr.X), fr.get(instr.Index))
+		fr.env.set(instr, i.lookup(instr, fr.get(instr.X), fr.get(instr.Index)))
 
 	case *ssa.MapUpdate:
 		m := fr.get(instr.Map).(*smap)
@@ -396,20 +408,20 @@ func visitInstr(fr *frame, instr ssa.Instruction) continuation {
 		m.insert(i, fr.get(instr.Key), fr.get(instr.Value))
 
 	case *ssa.TypeAssert:
-		fr.env[instr] = typeAssert(fr.i, instr, fr.get(instr.X).(iface))
+		fr.env.set(instr, typeAssert(fr.i, instr, fr.get(instr.X).(iface)))
 
 	case *ssa.MakeClosure:
 		var bindings []value
 		for _, binding := range instr.Bindings {
 			bindings = append(bindings, fr.get(binding))
 		}
-		fr.env[instr] = &closure{instr.Fn.(*ssa.Function), bindings}
+		fr.env.set(instr, &closure{instr.Fn.(*ssa.Function), bindings})
 
 	case *ssa.Phi:
 		panic("unreachable: phis are processed at block entry")
 
 	case *ssa.Select:
-		fr.env[instr] = i.selectInstr(fr, instr)
+		fr.env.set(instr, i.selectInstr(fr, instr))
 
 	default:
 		panic(fmt.Sprintf("unexpected instruction: %T", instr))
@@ -533,18 +545,19 @@ func callSSA(i *interpreter, caller *frame, callpos token.Pos, fn *ssa.Function,
 		panic("interp requires ssa.BuilderMode to include InstantiateGenerics to execute generics")
 	}
 
-	fr.env = make(map[ssa.Value]value)
+	fr.env = newEnv(fn)
+	fr.lit = litFold(fn)
 	fr.block = fn.Blocks[0]
 	fr.locals = make([]value, len(fn.Locals))
 	for i, l := range fn.Locals {
 		fr.locals[i] = zero(mustDeref(l.Type()))
-		fr.env[l] = &fr.locals[i]
+		fr.env.set(l, &fr.locals[i])
 	}
 	for i, p := range fn.Params {
-		fr.env[p] = args[i]
+		fr.env.set(p, args[i])
 	}
 	for i, fv := range fn.FreeVars {
-		fr.env[fv] = env[i]
+		fr.env.set(fv, env[i])
 	}
 	for fr.block != nil {
 		runFrame(fr)
@@ -664,7 +677,7 @@ func executePhis(fr *frame) []ssa.Instruction {
 			fr.phitemps = append(fr.phitemps, fr.get(phi.Edges[predIndex]))
 		}
 		for i, phi := range phis {
-			fr.env[phi.(*ssa.Phi)] = fr.phitemps[i]
+			fr.env.set(phi.(*ssa.Phi), fr.phitemps[i])
 		}
 	}
 	return nonPhis
